@@ -124,6 +124,7 @@ type DFeed struct {
 	Fail   int      `json:"fail"`
 	Render bool     `json:"render,omitempty"`
 	Rot    int      `json:"rot,omitempty"`
+	File   string   `json:"file,omitempty"`
 }
 
 type DPResult struct {
